@@ -19,7 +19,7 @@ ID = 'C14'
 BOUNDS = {
     'quick': 'decompress: F in 1..2 frames of free compressed length >= 1 and free decompressed length >= 0, cut into 1..3 chunks at free '
              'positions (0 <= c1 <= c2 <= len); compress: payload of N in 0..6 items, item size in {1,2,4,8}, compression block of 1..3 items',
-    'thorough': 'decompress: F in 1..3, up to 4 chunks (3 cuts); compress: N in 0..9, block of 1..4 items',
+    'thorough': 'decompress: F in 1..4, up to 5 chunks (4 cuts; F=3 up to 3 cuts, F=4 up to 2 cuts); compress: N in 0..12, block of 1..5 items',
 }
 OUTSIDE = 'the codec itself (contract stub: decompress_ptr(frame, addr) writes the frame\'s payload at addr and returns its length; ' \
           'compress returns an opaque frame of >= 1 byte); asdf\'s chunking policy (any policy is a model); more frames/cuts than the bound ' \
@@ -320,15 +320,15 @@ BND = {'N': 6}
 
 def items(tier, seed):
     out = []
-    Fs, cuts = ((1, 2), (0, 1, 2)) if tier == 'quick' else ((1, 2, 3), (0, 1, 2, 3))
+    Fs, cuts = ((1, 2), (0, 1, 2)) if tier == 'quick' else ((1, 2, 3, 4), (0, 1, 2, 3, 4))
     for F in Fs:
         for k in cuts:
-            if F == 3 and k == 3:
+            if (F == 3 and k > 3) or (F == 4 and k > 2):
                 continue
             out.append(dict(name=f'decompress/frames={F}/cuts={k}', kind='decompress', F=F, cuts=k))
     for isz in (1, 2, 4, 8):
-        for blk in ((1, 2, 3) if tier == 'quick' else (1, 2, 3, 4)):
-            out.append(dict(name=f'compress/itemsize={isz}/block={blk}', kind='compress', isz=isz, blk=blk, N=6 if tier == 'quick' else 9))
+        for blk in ((1, 2, 3) if tier == 'quick' else (1, 2, 3, 4, 5)):
+            out.append(dict(name=f'compress/itemsize={isz}/block={blk}', kind='compress', isz=isz, blk=blk, N=6 if tier == 'quick' else 12))
     return out
 
 
